@@ -123,3 +123,47 @@ package http
 //@   ensures* default.plain: formatter == 0 && asSE(err) == 0 ==> typeIs(v, *ErrorResponse) && R.Name == "fault" && R.Fault && select(whLastCode, w) == 500
 //@   modifies* HdrVal[rwHeader(w)], whCalls[w], statusSent[w], whLastCode[w], encCalls, encLast, encCount, encLastVal
 //@   frameprop C20
+
+// ---- router (C16) -----------------------------------------------------------------
+
+//@ macro unesc(s) = ite(decode1Ok(s), decode1(s), s)
+
+//@ func (*mux).resolveWildcard
+//@   property C16
+//@   requires m != nil
+//@   ensures* named: inMap(m.wildcards, method + "::" + pattern) ==> result == substr(pattern, 0, len(pattern) - 2) + "/{*" + m.wildcards[method + "::" + pattern] + "}"
+//@   ensures* plain: !inMap(m.wildcards, method + "::" + pattern) ==> result == pattern
+//@   modifies nothing
+
+//@ func (*mux).Handle
+//@   property C16 C20
+//@   requires m != nil && m.wildcards != nil && m.Router != nil
+//@   requires select(lockHeld, addr(m.mu)) == 0
+//@   let rt = m.Router
+//@   ensures* catchall: forall q String, n String :: pattern == q + "/{*" + n + "}" && isWildName(n) && !contains(q, "/{*") ==> select(select(chiReg, rt), method + " " + q + "/*") && inMap(m.wildcards, method + "::" + q + "/*") && m.wildcards[method + "::" + q + "/*"] == n
+//@   ensures* catchall.frame: forall k String :: (forall q String, n String :: !(pattern == q + "/{*" + n + "}" && isWildName(n) && !contains(q, "/{*") && k == method + "::" + q + "/*")) && wildCount(pattern) == 2 ==> k == method + "::" + wildRepl(pattern, "/*") || (inMap(m.wildcards, k) == old(inMap(m.wildcards, k)) && m.wildcards[k] == old(m.wildcards[k]))
+//@   ensures* plain: !contains(pattern, "/{*") ==> select(select(chiReg, rt), method + " " + pattern) && (forall k String :: inMap(m.wildcards, k) == old(inMap(m.wildcards, k)) && m.wildcards[k] == old(m.wildcards[k]))
+//@   ensures* unlocked: select(lockHeld, addr(m.mu)) == 0
+//@ lemma c16_resolve_inverts_rewrite property C16: forall q String, n String :: substr(q + "/*", 0, len(q + "/*") - 2) + "/{*" + n + "}" == q + "/{*" + n + "}"
+
+// chi (assumed, audited): when the request carries an escaped path chi matches on it and the
+// captured values are the raw segments; otherwise it matches on the decoded path and the
+// captured values are the segments decoded once.
+//@ macro chiValuesWF(r, x) = len(x.URLParams.Keys) == len(x.URLParams.Values) && (forall i int :: 0 <= i && i < len(x.URLParams.Values) ==> decode1Ok(select(select(rawSeg, x), i)) && x.URLParams.Values[i] == ite(r.URL.RawPath != "", select(select(rawSeg, x), i), decode1(select(select(rawSeg, x), i))))
+//@ macro varKey(m, r, x, i) = ite(x.URLParams.Keys[i] == "*", m.wildcards[r.Method + "::" + select(chiPat, x)], x.URLParams.Keys[i])
+
+//@ func (*mux).Vars
+//@   property C16
+//@   requires m != nil && r != nil && r.URL != nil
+//@   let x = ptr(*chi.Context, chiCtxOf(r.ctx))
+//@   requires r.ctx != nil
+//   -- the request has been routed by chi (the usual case: Vars is called from a mounted handler)
+//@   requires x != nil ==> select(chiPat, x) != "" && chiValuesWF(r, x)
+//@   ensures* none: x == nil || len(x.URLParams.Keys) == 0 ==> result == nil
+//@   ensures* some: x != nil && len(x.URLParams.Keys) > 0 ==> result != nil && fresh(result)
+//   -- every entry written to the result holds the text the client placed in the URL, percent-decoded once,
+//   -- under the registered name (the wildcard's name for "*")
+//@   loop 1 invariant seen: -1 <= rangeindex && rangeindex < len(params.Keys) && vars != nil && fresh(vars) && params == x.URLParams && ctx == x
+//@   at mapupdate 1 assert* wildcard.decoded.once: value == decode1(select(select(rawSeg, x), i)) && key == m.wildcards[r.Method + "::" + select(chiPat, x)] && map == vars
+//@   at mapupdate 2 assert* named.decoded.once: value == decode1(select(select(rawSeg, x), i)) && key == params.Keys[i] && map == vars
+//@   modifies nothing
